@@ -596,12 +596,15 @@ def solve_projection_onto_manifold_newton_with_line_search(
             delta_pos = -dh2_flow_pos_dmom @ delta_mu
             pos_curr = state.pos.copy()
             step_size = 1.0
-            for _ in range(max_line_search_iters):
+            for line_search_iter in range(max_line_search_iters):
+                # Halve step size before each retry so that step_size is always the
+                # scaling actually applied to the position
+                if line_search_iter > 0:
+                    step_size *= 0.5
                 state.pos = pos_curr + step_size * delta_pos
                 new_error = norm(system.constr(state))
                 if new_error < error:
                     break
-                step_size *= 0.5
             mu += step_size * delta_mu
         except (ValueError, LinAlgError) as e:
             # Make robust to errors in intermediate linear algebra ops
